@@ -309,15 +309,30 @@ pub fn run_worker(args: &[String], watchdog: Duration) -> (Vec<Ev>, bool) {
     (evs, done)
 }
 
-/// keeps the tail of a worker's stderr that matters
+/// the first panic of a worker's stderr: the `panicked at <location>` line and its message
 pub fn stderr_gist(s: &str) -> String {
-    let lines: Vec<&str> = s
-        .lines()
-        .filter(|l| l.contains("panicked at") || l.contains("memory allocation") || l.contains("overflow"))
-        .collect();
-    let mut g = lines.iter().rev().take(2).rev().cloned().collect::<Vec<_>>().join(" | ");
-    if g.is_empty() {
-        g = s.lines().last().unwrap_or("").to_string();
+    let lines: Vec<&str> = s.lines().collect();
+    let mut g = String::new();
+    if let Some(i) = lines.iter().position(|l| l.contains("panicked at")) {
+        g = lines[i].split("panicked at").nth(1).unwrap_or("").trim().to_string();
+        if let Some(m) = lines.get(i + 1) {
+            g.push_str(" | ");
+            g.push_str(m.trim());
+        }
+    } else if let Some(l) = lines.iter().find(|l| l.contains("memory allocation")) {
+        g = l.to_string();
+    } else if let Some(l) = lines.last() {
+        g = l.to_string();
     }
-    g.chars().take(200).collect::<String>().replace(' ', "_")
+    g.chars().take(240).collect::<String>().replace(' ', "_")
+}
+
+/// finding class F39 (dictionary-file form): the root's first child is a leaf, i.e. the file holds
+/// an entry under the empty syllable key (`TrieBuilder` itself writes such files when asked to);
+/// `lookup(&[])` is then non-empty and every conversion aborts.
+pub fn empty_key_entry(recs: &[IRec]) -> bool {
+    match recs.first() {
+        Some(r) if in_range(r, recs.len()) => recs[r.a as usize].s == 0,
+        _ => false,
+    }
 }
